@@ -10,23 +10,27 @@ Example alphabet_ok :
   map enc_char (map Z.of_nat (seq 0 64)) = s2z "ABCDEFGHIJKLMNOPQRSTUVWXYZabcdefghijklmnopqrstuvwxyz0123456789+/".
 Proof. vm_compute. reflexivity. Qed.
 
+Definition sextets : list Z := map Z.of_nat (seq 0 64).
+Lemma sextet_in s : 0 <= s < 64 -> In s sextets.
+Proof.
+  intros Hs. unfold sextets. apply in_map_iff. exists (Z.to_nat s). split; [lia|].
+  apply in_seq. lia.
+Qed.
+
 Lemma dec_enc_char s : 0 <= s < 64 -> dec_char (enc_char s) = Some s.
 Proof.
-  intros Hs. unfold enc_char, dec_char.
-  repeat match goal with
-  | |- context [?a <? ?b] => destruct (Z.ltb_spec a b)
-  | |- context [?a <=? ?b] => destruct (Z.leb_spec a b)
-  | |- context [?a =? ?b] => destruct (Z.eqb_spec a b)
-  end; cbn; try (f_equal; lia); try lia.
+  intros Hs.
+  assert (H : forallb (fun t => match dec_char (enc_char t) with Some u => u =? t | None => false end) sextets = true)
+    by (vm_compute; reflexivity).
+  rewrite forallb_forall in H. specialize (H s (sextet_in s Hs)).
+  destruct (dec_char (enc_char s)) as [u|]; [|discriminate]. apply Z.eqb_eq in H. now subst.
 Qed.
 
 Lemma enc_char_not_pad s : 0 <= s < 64 -> (enc_char s =? pad_char) = false.
 Proof.
-  intros Hs. unfold enc_char, pad_char.
-  repeat match goal with
-  | |- context [?a <? ?b] => destruct (Z.ltb_spec a b)
-  | |- context [?a =? ?b] => destruct (Z.eqb_spec a b)
-  end; try reflexivity; lia.
+  intros Hs.
+  assert (H : forallb (fun t => negb (enc_char t =? pad_char)) sextets = true) by (vm_compute; reflexivity).
+  rewrite forallb_forall in H. specialize (H s (sextet_in s Hs)). now apply negb_true_iff in H.
 Qed.
 
 (* induction on lists in steps of three *)
@@ -38,74 +42,59 @@ Proof.
   assert (H : P l /\ (forall a, P (a :: l)) /\ (forall a b, P (a :: b :: l))).
   { induction l as [|x l (IH0 & IH1 & IH2)].
     - repeat split; auto.
-    - repeat split; auto. intros a b. apply H3. exact IH0. }
+    - split; [apply IH1 | split; [intros a; apply IH2 | intros a b; apply H3; exact IH0]]. }
   apply H.
 Qed.
 
-Section Sextets.
-  Variables a b c : Z.
-  Hypothesis Ha : byte_ok a.
-  Hypothesis Hb : byte_ok b.
-  Hypothesis Hc : byte_ok c.
+Ltac dm x k := pose proof (Z.div_mod x k ltac:(lia)); pose proof (Z.mod_pos_bound x k ltac:(lia)).
 
-  Lemma sx0 : 0 <= a / 4 < 64.
-  Proof. unfold byte_ok in *. pose proof (Z.div_mod a 4). pose proof (Z.mod_pos_bound a 4). lia. Qed.
-  Lemma sx1 : 0 <= (a mod 4) * 16 + b / 16 < 64.
-  Proof.
-    unfold byte_ok in *. pose proof (Z.mod_pos_bound a 4). pose proof (Z.div_mod b 16).
-    pose proof (Z.mod_pos_bound b 16). lia.
-  Qed.
-  Lemma sx1' : 0 <= (a mod 4) * 16 < 64.
-  Proof. pose proof (Z.mod_pos_bound a 4). lia. Qed.
-  Lemma sx2 : 0 <= (b mod 16) * 4 + c / 64 < 64.
-  Proof.
-    unfold byte_ok in *. pose proof (Z.mod_pos_bound b 16). pose proof (Z.div_mod c 64).
-    pose proof (Z.mod_pos_bound c 64). lia.
-  Qed.
-  Lemma sx2' : 0 <= (b mod 16) * 4 < 64.
-  Proof. pose proof (Z.mod_pos_bound b 16). lia. Qed.
-  Lemma sx3 : 0 <= c mod 64 < 64.
-  Proof. apply Z.mod_pos_bound. lia. Qed.
+Lemma sx0 a : byte_ok a -> 0 <= a / 4 < 64.
+Proof. unfold byte_ok. intros Ha. dm a 4. lia. Qed.
+Lemma sx1 a b : byte_ok b -> 0 <= (a mod 4) * 16 + b / 16 < 64.
+Proof. unfold byte_ok. intros Hb. dm a 4. dm b 16. lia. Qed.
+Lemma sx1' a : 0 <= (a mod 4) * 16 < 64.
+Proof. dm a 4. lia. Qed.
+Lemma sx2 b c : byte_ok c -> 0 <= (b mod 16) * 4 + c / 64 < 64.
+Proof. unfold byte_ok. intros Hc. dm b 16. dm c 64. lia. Qed.
+Lemma sx2' b : 0 <= (b mod 16) * 4 < 64.
+Proof. dm b 16. lia. Qed.
+Lemma sx3 c : 0 <= c mod 64 < 64.
+Proof. apply Z.mod_pos_bound. lia. Qed.
 
-  (* reassembling the bytes from the sextets *)
-  Lemma by0 : (a / 4) * 4 + ((a mod 4) * 16 + b / 16) / 16 = a.
-  Proof.
-    unfold byte_ok in *. pose proof (Z.div_mod a 4). pose proof (Z.mod_pos_bound a 4).
-    pose proof (Z.div_mod b 16). pose proof (Z.mod_pos_bound b 16).
-    assert (E : ((a mod 4) * 16 + b / 16) / 16 = a mod 4).
-    { symmetry. apply (Z.div_unique _ 16 _ (b / 16)); lia. }
-    rewrite E. lia.
-  Qed.
-  Lemma by0' : (a / 4) * 4 + ((a mod 4) * 16) / 16 = a.
-  Proof. rewrite Z.div_mul by lia. pose proof (Z.div_mod a 4). lia. Qed.
-  Lemma by1 : (((a mod 4) * 16 + b / 16) mod 16) * 16 + ((b mod 16) * 4 + c / 64) / 4 = b.
-  Proof.
-    unfold byte_ok in *. pose proof (Z.mod_pos_bound a 4).
-    pose proof (Z.div_mod b 16). pose proof (Z.mod_pos_bound b 16).
-    pose proof (Z.div_mod c 64). pose proof (Z.mod_pos_bound c 64).
-    assert (E1 : ((a mod 4) * 16 + b / 16) mod 16 = b / 16).
-    { symmetry. apply (Z.mod_unique _ 16 (a mod 4)); lia. }
-    assert (E2 : ((b mod 16) * 4 + c / 64) / 4 = b mod 16).
-    { symmetry. apply (Z.div_unique _ 4 _ (c / 64)); lia. }
-    rewrite E1, E2. lia.
-  Qed.
-  Lemma by1' : (((a mod 4) * 16 + b / 16) mod 16) * 16 + ((b mod 16) * 4) / 4 = b.
-  Proof.
-    unfold byte_ok in *. pose proof (Z.mod_pos_bound a 4).
-    pose proof (Z.div_mod b 16). pose proof (Z.mod_pos_bound b 16).
-    assert (E1 : ((a mod 4) * 16 + b / 16) mod 16 = b / 16).
-    { symmetry. apply (Z.mod_unique _ 16 (a mod 4)); lia. }
-    rewrite E1, Z.div_mul by lia. lia.
-  Qed.
-  Lemma by2 : (((b mod 16) * 4 + c / 64) mod 4) * 64 + c mod 64 = c.
-  Proof.
-    unfold byte_ok in *. pose proof (Z.mod_pos_bound b 16).
-    pose proof (Z.div_mod c 64). pose proof (Z.mod_pos_bound c 64).
-    assert (E1 : ((b mod 16) * 4 + c / 64) mod 4 = c / 64).
-    { symmetry. apply (Z.mod_unique _ 4 (b mod 16)); lia. }
-    rewrite E1. lia.
-  Qed.
-End Sextets.
+(* reassembling the bytes from the sextets *)
+Lemma by0 a b : byte_ok b -> (a / 4) * 4 + ((a mod 4) * 16 + b / 16) / 16 = a.
+Proof.
+  unfold byte_ok. intros Hb. dm a 4. dm b 16.
+  assert (E : ((a mod 4) * 16 + b / 16) / 16 = a mod 4).
+  { symmetry. apply (Z.div_unique _ 16 _ (b / 16)); lia. }
+  rewrite E. lia.
+Qed.
+Lemma by0' a : (a / 4) * 4 + ((a mod 4) * 16) / 16 = a.
+Proof. rewrite Z.div_mul by lia. dm a 4. lia. Qed.
+Lemma by1 a b c : byte_ok b -> byte_ok c ->
+  (((a mod 4) * 16 + b / 16) mod 16) * 16 + ((b mod 16) * 4 + c / 64) / 4 = b.
+Proof.
+  unfold byte_ok. intros Hb Hc. dm a 4. dm b 16. dm c 64.
+  assert (E1 : ((a mod 4) * 16 + b / 16) mod 16 = b / 16).
+  { symmetry. apply (Z.mod_unique _ 16 (a mod 4)); lia. }
+  assert (E2 : ((b mod 16) * 4 + c / 64) / 4 = b mod 16).
+  { symmetry. apply (Z.div_unique _ 4 _ (c / 64)); lia. }
+  rewrite E1, E2. lia.
+Qed.
+Lemma by1' a b : byte_ok b -> (((a mod 4) * 16 + b / 16) mod 16) * 16 + ((b mod 16) * 4) / 4 = b.
+Proof.
+  unfold byte_ok. intros Hb. dm a 4. dm b 16.
+  assert (E1 : ((a mod 4) * 16 + b / 16) mod 16 = b / 16).
+  { symmetry. apply (Z.mod_unique _ 16 (a mod 4)); lia. }
+  rewrite E1, Z.div_mul by lia. lia.
+Qed.
+Lemma by2 b c : byte_ok c -> (((b mod 16) * 4 + c / 64) mod 4) * 64 + c mod 64 = c.
+Proof.
+  unfold byte_ok. intros Hc. dm b 16. dm c 64.
+  assert (E1 : ((b mod 16) * 4 + c / 64) mod 4 = c / 64).
+  { symmetry. apply (Z.mod_unique _ 4 (b mod 16)); lia. }
+  rewrite E1. lia.
+Qed.
 
 (* RFC 4648 round trip, for every byte list *)
 Theorem b64_roundtrip : forall bs, bytes_ok bs -> b64_decode (b64_encode bs) = Some bs.
@@ -120,7 +109,7 @@ Proof.
     cbn [b64_encode b64_decode].
     rewrite (dec_enc_char _ (sx0 a Ha)), (dec_enc_char _ (sx1 a b Hb)).
     rewrite (enc_char_not_pad _ (sx2' b)), (dec_enc_char _ (sx2' b)).
-    rewrite Z.eqb_refl. rewrite (by0 a b Ha Hb), (by1' a b Hb). reflexivity.
+    rewrite Z.eqb_refl. rewrite (by0 a b Hb), (by1' a b Hb). reflexivity.
   - inversion Hok as [|? ? Ha Hok1]; subst. inversion Hok1 as [|? ? Hb Hok2]; subst.
     inversion Hok2 as [|? ? Hc Hok3]; subst.
     cbn [b64_encode b64_decode].
@@ -128,7 +117,7 @@ Proof.
     rewrite (enc_char_not_pad _ (sx2 b c Hc)), (dec_enc_char _ (sx2 b c Hc)).
     rewrite (enc_char_not_pad _ (sx3 c)), (dec_enc_char _ (sx3 c)).
     rewrite (IH Hok3).
-    rewrite (by0 a b Ha Hb), (by1 a b c Hb Hc), (by2 b c Hc). reflexivity.
+    rewrite (by0 a b Hb), (by1 a b c Hb Hc), (by2 b c Hc). reflexivity.
 Qed.
 
 (* encoded length: 4 * ceil(n / 3) *)
